@@ -25,7 +25,7 @@ from vlib.verus import VerusFile, Contract, Clause, sub, lit, rule, R5_BOOL_OPAS
 
 NAME = "c18_timelock"
 ENGINE = "verus"
-PROPS = ("C18", "C11")
+PROPS = ("C18", "C12", "C11")
 EXT = "src/miniscript/types/extra_props.rs"
 DROPPED = [
     "Concrete::timelock_info: the `for data in self.rtl_post_order_iter()` loop and the final pop are dropped (traversal contract, DESIGN 3.2); the closure `(0..n).map(|_| infos.pop().unwrap())` is replaced by the stub pop_children (partial R9); check_timelocks (reads contains_combination of the root) is not extracted",
@@ -207,17 +207,17 @@ def concrete_step(vf):
                 arm_rewrites={"And(ref subs)": [clos, itr], "Or(ref subs)": [clos, itr], "Thresh(ref thresh)": [clos, itr]},
                 pre_match="    use Concrete::*;\n    proof { lemma_children(old(infos)@, arity(*data.node)); }",
                 contract=Contract(requires=["old(infos)@.len() >= arity(*data.node)"], ensures=[
-                    Clause("after_unit_is_bip65_threshold", ("C18",),
+                    Clause("after_unit_is_bip65_threshold", ("C18", "C12"),
                            "*data.node matches Concrete::After(t) ==> r.cltv_with_height == (t.consensus() < 500_000_000u32) && r.cltv_with_time == (t.consensus() >= 500_000_000u32) && !r.csv_with_height && !r.csv_with_time && !r.contains_combination"),
-                    Clause("older_unit_is_bip68_type_flag", ("C18",),
+                    Clause("older_unit_is_bip68_type_flag", ("C18", "C12"),
                            "*data.node matches Concrete::Older(t) ==> r.csv_with_time == (t.consensus() & 0x0040_0000u32 != 0) && r.csv_with_height == (t.consensus() & 0x0040_0000u32 == 0) && !r.cltv_with_height && !r.cltv_with_time && !r.contains_combination"),
-                    Clause("other_leaves_have_no_lock", ("C18",),
+                    Clause("other_leaves_have_no_lock", ("C18", "C12"),
                            "is_cleaf(*data.node) && !(*data.node is After) && !(*data.node is Older) ==> !r.csv_with_height && !r.csv_with_time && !r.cltv_with_height && !r.cltv_with_time && !r.contains_combination"),
-                    Clause("nary_flags_are_union", ("C18",),
+                    Clause("nary_flags_are_union", ("C18", "C12"),
                            "!is_cleaf(*data.node) ==> r.csv_with_height == some_csv_h(%s, %s) && r.csv_with_time == some_csv_t(%s, %s) && r.cltv_with_height == some_cltv_h(%s, %s) && r.cltv_with_time == some_cltv_t(%s, %s)" % ((s, n) * 4)),
-                    Clause("nary_mixes_iff_path_needs_both", ("C18",),
+                    Clause("nary_mixes_iff_path_needs_both", ("C18", "C12"),
                            "!is_cleaf(*data.node) ==> r.contains_combination == (some_comb(%s, %s) || (required(*data.node) > 1 && some_pair_conflicts(%s, %s)))" % (s, n, s, n)),
-                    Clause("stack_frame", ("C18", "C11"), "final(infos)@ == old(infos)@.subrange(0, old(infos)@.len() - arity(*data.node))"),
+                    Clause("stack_frame", ("C18", "C12", "C11"), "final(infos)@ == old(infos)@.subrange(0, old(infos)@.len() - arity(*data.node))"),
                 ]))
     vf.spec_obligation("lemma_children", LEMMA_CHILDREN, PROPS)
 
@@ -238,26 +238,26 @@ def build(repo):
     s, n = "timelocks@", "timelocks@.len() as int"
     with vf.block("impl TimelockInfo"):
         vf.fn(EXT, "impl:TimelockInfo/fn:new", qual="TimelockInfo", props=PROPS, contract=Contract(ensures=[
-            Clause("all_false", ("C18",), "!r.csv_with_height && !r.csv_with_time && !r.cltv_with_height && !r.cltv_with_time && !r.contains_combination")]))
+            Clause("all_false", ("C18", "C12"), "!r.csv_with_height && !r.csv_with_time && !r.cltv_with_height && !r.cltv_with_time && !r.contains_combination")]))
         vf.fn(EXT, "impl:TimelockInfo/fn:contains_unspendable_path", qual="TimelockInfo", props=PROPS, contract=Contract(ensures=[
-            Clause("is_combination_flag", ("C18",), "r == self.contains_combination")]))
+            Clause("is_combination_flag", ("C18", "C12"), "r == self.contains_combination")]))
         vf.fn(EXT, "impl:TimelockInfo/fn:combine_threshold", qual="TimelockInfo", props=PROPS,
               rewrites=[R8_SIG, fold_to_loop, R5_BOOL_OPASSIGN],
               contract=Contract(ensures=[
-                  Clause("flags_are_union", ("C18",),
+                  Clause("flags_are_union", ("C18", "C12"),
                          "r.csv_with_height == some_csv_h(%s, %s) && r.csv_with_time == some_csv_t(%s, %s) && r.cltv_with_height == some_cltv_h(%s, %s) && r.cltv_with_time == some_cltv_t(%s, %s)" % ((s, n) * 4)),
-                  Clause("combination_iff_pairwise_conflict", ("C18",), "r.contains_combination == spec_combination(k, %s, %s)" % (s, n)),
-                  Clause("or_never_adds_combination", ("C18",), "k <= 1 ==> (r.contains_combination == some_comb(%s, %s))" % (s, n)),
+                  Clause("combination_iff_pairwise_conflict", ("C18", "C12"), "r.contains_combination == spec_combination(k, %s, %s)" % (s, n)),
+                  Clause("or_never_adds_combination", ("C18", "C12"), "k <= 1 ==> (r.contains_combination == some_comb(%s, %s))" % (s, n)),
               ]))
         # and / or of two: the pairwise statement instantiated at the only pair (a, b)
         two = [lit("R8-once-chain-to-slice", "once(a).chain(once(b))", "&[a, b]"),
                lit("R10", "Self::combine_threshold(", "proof { lemma_two(a, b); }\n        Self::combine_threshold(")]
         vf.fn(EXT, "impl:TimelockInfo/fn:combine_and", qual="TimelockInfo", props=PROPS, rewrites=two, contract=Contract(ensures=[
-            Clause("flags_are_union", ("C18",), "r.csv_with_height == (a.csv_with_height || b.csv_with_height) && r.csv_with_time == (a.csv_with_time || b.csv_with_time) && r.cltv_with_height == (a.cltv_with_height || b.cltv_with_height) && r.cltv_with_time == (a.cltv_with_time || b.cltv_with_time)"),
-            Clause("combination_iff_conflict", ("C18",), "r.contains_combination == (a.contains_combination || b.contains_combination || conflict(a, b) || conflict(b, a))")]))
+            Clause("flags_are_union", ("C18", "C12"), "r.csv_with_height == (a.csv_with_height || b.csv_with_height) && r.csv_with_time == (a.csv_with_time || b.csv_with_time) && r.cltv_with_height == (a.cltv_with_height || b.cltv_with_height) && r.cltv_with_time == (a.cltv_with_time || b.cltv_with_time)"),
+            Clause("combination_iff_conflict", ("C18", "C12"), "r.contains_combination == (a.contains_combination || b.contains_combination || conflict(a, b) || conflict(b, a))")]))
         vf.fn(EXT, "impl:TimelockInfo/fn:combine_or", qual="TimelockInfo", props=PROPS, rewrites=two, contract=Contract(ensures=[
-            Clause("flags_are_union", ("C18",), "r.csv_with_height == (a.csv_with_height || b.csv_with_height) && r.csv_with_time == (a.csv_with_time || b.csv_with_time) && r.cltv_with_height == (a.cltv_with_height || b.cltv_with_height) && r.cltv_with_time == (a.cltv_with_time || b.cltv_with_time)"),
-            Clause("combination_only_inherited", ("C18",), "r.contains_combination == (a.contains_combination || b.contains_combination)")]))
+            Clause("flags_are_union", ("C18", "C12"), "r.csv_with_height == (a.csv_with_height || b.csv_with_height) && r.csv_with_time == (a.csv_with_time || b.csv_with_time) && r.cltv_with_height == (a.cltv_with_height || b.cltv_with_height) && r.cltv_with_time == (a.cltv_with_time || b.cltv_with_time)"),
+            Clause("combination_only_inherited", ("C18", "C12"), "r.contains_combination == (a.contains_combination || b.contains_combination)")]))
     vf.spec_obligation("lemma_two", LEMMA_TWO, PROPS)
     concrete_step(vf)
     return vf
